@@ -349,10 +349,6 @@ def _draw(regs, rng, mode: str, k: int, frozen: set):
 # plumbing
 
 
-class _Fail(Exception):
-    pass
-
-
 def _try(ctx, ad, inst, step: str, fn, *a, **kw):
     """Run one step against the tree; an exception is classified and reported, (False, exc) returned."""
     try:
@@ -400,7 +396,9 @@ def _classify(ad, inst, step: str, exc=None, hint: str = "") -> str:
     msg = str(exc) if exc is not None else ""
     if kind == "memcfg" and tname == "SPSDKRegsErrorBitfieldNotFound":
         rule = ad.computed_signature(inst)[1]
-        return f"memcfg-ow-count-rule-{rule}-bitfield-missing"
+        if rule and f"The {rule} is not found" in msg:
+            # the count rule of the database names a bit-field the peripheral's specification does not have
+            return f"memcfg-ow-count-rule-{rule}-bitfield-missing"
     if kind == "fcb" and step in ("parse", "cli-parse") and "Tag value" in msg:
         if inst.get("_tag_from_template"):
             return f"fcb-{inst['mem'].split('_')[0]}-default-tag"
@@ -634,9 +632,6 @@ def _computed_law(ctx, ad, inst, obj, data: bytes):
     elif kind == "bca":
         if data[0:4] != b"kcfg":
             _viol(ctx, ad, inst, "tag-wrong", {"got": data[0:4]})
-    elif kind == "fcb":
-        if data[0:4] != b"FCFB":
-            inst["_tag_in_bytes_wrong"] = True
 
 
 def _chain(ctx, ad, inst, cfg: dict, expect: list[dict], mode: str) -> bool:
